@@ -11,6 +11,7 @@ started (OSError) stops the run like a failing build"); the pinned tree is
 `oserrRaises = false`.
 -/
 import RB.Proofs.Lemmas.Builds
+import RB.Proofs.Lemmas.BuildsPar
 
 namespace RB.Builds
 
@@ -219,5 +220,37 @@ theorem c13_build_race :
 the build done, and the build is started once -/
 example : starts exBuildA (prun (exParCfg true) 2 8 [0, 1, 0, 1, 0, 1, 1, 0, 1] exParInit).st.trace = 1 := by
   decide
+
+/-- the state in which the worker threads of the parallel scheduler start
+(executor.py:262-268): the exclusive runs have been executed on the main thread by the
+sequential scheduler, the non-exclusive ones are the remaining work, `nw` idle workers -/
+def parInit (c : PCfg) (ks : List Nat) (seqRuns parRuns : List Run) (nw : Nat) : PSt :=
+  { st := session c.toCfg c.sched ks seqRuns, remaining := parRuns, workers := List.replicate nw {} }
+
+/-- "at most once", parallel scheduler, full statement over **all interleavings**: on the
+repaired tree (`locked = true`: check, act and mark under the executor's build lock —
+fix "run a build shared by parallel runs only once") every distinct build is started
+at most once, for every schedule `picks` of the worker threads at the scheduling
+points (process start, process end, contended lock), every number of workers, every
+chunking parameter, every sharing pattern and every assignment of results. -/
+theorem c13_build_once_par (c : PCfg) (hl : c.locked = true) (ks : List Nat)
+    (seqRuns parRuns : List Run) (nw n fuel : Nat) (picks : List Nat) (b : Build) :
+    starts b (prun c n fuel picks (parInit c ks seqRuns parRuns nw)).st.trace ≤ 1 := by
+  refine (prun_inv c hl n fuel picks _ ?_).once b
+  have inv := session_inv c.toCfg c.sched ks seqRuns
+  refine ⟨?_, inv.once, fun b h1 h2 _ => inv.fresh b h1 h2⟩
+  intro j w _ hw b hb
+  exfalso
+  have : w = {} := by
+    simp only [parInit, List.getElem?_replicate] at hw
+    split at hw
+    · cases hw; rfl
+    · cases hw
+  subst this
+  exact not_busy_idle b hb
+
+/-- non-vacuity: under the locked model workers really do build (the example above
+starts the shared build exactly once under a contended schedule) -/
+example : (exParCfg true).locked = true := rfl
 
 end RB.Builds
